@@ -17,6 +17,7 @@ property is a failure as well ("returns an expression ... or reports failure").
 from __future__ import annotations
 
 import functools
+import itertools as itt
 import json
 import random
 
@@ -206,6 +207,14 @@ def _district_q_candidates(rng, g, T, V, di, want):
         zs = list(Z)
         rng.shuffle(zs)
         out.append(("iprob_mixed", eP(T, sorted(zs[:k]), dos=sorted(zs[k:]))))
+    # the same conditional written as a top-level Fraction / Sum (Lemma-3 / Lemma-4 dispatch of IDENTIFY)
+    Dd = sorted(set(V) - set(T) - set(Z))
+    if "fracform" in want and block:
+        out.append(("fracform", ["frac", eP(T + Z), eP(Z) if Z else "one"]))
+    if "frac_sum" in want and block and Dd:
+        out.append(("frac_sum", ["frac", eSum(Dd, eP(sorted(V))), eP(Z) if Z else "one"]))
+    if "sum_desc" in want and block and Dd:
+        out.append(("sum_desc", eSum(Dd, eP(T + Dd, Z))))
     order = S.random_linear_extension(rng, V, di)
     pos = {v: i for i, v in enumerate(order)}
     if "prod" in want:
@@ -256,7 +265,7 @@ def _gen_valid(rng, tier, n_graphs, nmax_eval):
         base = {"g": g, "scm_seed": rng.randrange(1 << 30), "evaluate": evaluate, "q_by_construction": True}
         dists = S.districts_of(bi, V)
         for T in dists:
-            cands = _district_q_candidates(rng, g, T, V, di, want={"prob", "pprob", "prob_pa", "prob_redundant", "prod", "pprod", "frac", "sum", "iprob", "iprob_all", "ipprob", "iprob_mixed"})
+            cands = _district_q_candidates(rng, g, T, V, di, want=ALL_QFORMS)
             subs = _subsets_single_district(rng, bi, T, 6 if tier == "quick" else 14)
             for Cs in subs:
                 kinds = cands if len(cands) <= 4 else rng.sample(cands, 4)
@@ -267,7 +276,7 @@ def _gen_valid(rng, tier, n_graphs, nmax_eval):
                     case = dict(base, op="identify", C=sorted(Cs), T=sorted(T), topo=topo, q=q, qkind=kind)
                     out.append(case)
                     # chained: the estimand returned for Q[C] becomes the given c-factor of the next call
-                    if len(Cs) >= 2 and evaluate and rng.random() < 0.5:
+                    if len(Cs) >= 2 and evaluate and rng.random() < 0.5 and _TIMEOUTS["n"] < 2:
                         status, val = _call(case)
                         if status == "ok" and val is not None:
                             for C2 in _subsets_single_district(rng, bi, Cs, 2):
@@ -332,7 +341,7 @@ def _q_of_some_set(rng, V, di, bi, dists):
 # ------------------------------------------------------------------------------------------ structured generators
 
 ALL_QFORMS = {"prob", "pprob", "prob_pa", "pprob_pa", "prob_redundant", "prod", "pprod", "frac", "sum", "iprob",
-              "iprob_all", "ipprob", "iprob_mixed"}
+              "iprob_all", "ipprob", "iprob_mixed", "fracform", "frac_sum", "sum_desc"}
 
 
 def identify_trace(di, bi, Cs, T):
@@ -512,7 +521,7 @@ def _gen_recursion(rng, tier, plan):
     for depth, count in plan:
         for _ in range(count):
             nz = rng.choice([1, 1, 1, 2, 0])
-            nd = rng.choice([0, 0, 1])
+            nd = rng.choice([0, 1])
             if depth >= 3:
                 nz, nd = rng.choice([0, 1]), 0
             sg = _structured_graph(rng, depth, nz, nd)
@@ -538,7 +547,7 @@ def _gen_recursion(rng, tier, plan):
                 for kind, q in cands:
                     many = kind in ("prob", "prob_pa", "pprob", "iprob", "iprob_mixed")
                     k = (4 if many else 1) if tier == "quick" else (8 if many else 3)
-                    if depth >= 2 and q[0] not in ("P", "PP") and (len(V) > 7 or rng.random() < 0.5):
+                    if depth >= 2 and q[0] not in ("P", "PP") and (len(V) > 7 or rng.random() < (0.5 if depth == 2 else 0.8)):
                         continue        # nested Lemma-4 ratios: the estimand doubles in size with every level
                     for topo in _orders(rng, V, di, k):
                         topo = list(topo)
@@ -655,6 +664,63 @@ def _gen_cfactor(rng, tier, n_graphs):
     return out
 
 
+def _gen_semantic_probs(rng, tier, n_graphs):
+    """EVERY single-world probability expression over a small graph as candidate for Q[T]: P_w(T u E | Z) for every
+    disjoint choice of intervened variables w and conditioning variables Z outside T, plus redundant children E taken
+    from Z u w.  The oracle's hypothesis check keeps exactly those that DENOTE Q[T] on the random models (whatever
+    their syntactic shape); IDENTIFY must then be right on them.  This probes the semantic reading of the property
+    ("an expression for its c-factor") beyond the syntactic hypothesis ProbShape of the Lean theorem."""
+    out = []
+    made = 0
+    while made < n_graphs:
+        if rng.random() < 0.5:
+            sg = _structured_graph(rng, rng.choice([0, 1, 1]), rng.choice([1, 2]), rng.choice([0, 1]))
+            if sg is None:
+                continue
+            g, T, _, _, _ = sg
+            Ts = [T]
+        else:
+            n = rng.choice([3, 4, 4, 5])
+            g = G.rand_graph(rng, n, n, acyclic=True, pd=rng.choice([0.3, 0.5]), pb=rng.choice([0.2, 0.35, 0.5]))
+            Ts = None
+        V = G.all_nodes(g)
+        di = [tuple(e) for e in g["di"]]
+        bi = [tuple(e) for e in g["bi"]]
+        if len(V) < 3 or len(V) > 6 or _eval_cost(V, di, bi) > 2e5:
+            continue
+        if Ts is None:
+            Ts = [sorted(d) for d in S.districts_of(bi, V) if 2 <= len(d) < len(V)][:1]
+            if not Ts:
+                continue
+        made += 1
+        base = {"g": g, "scm_seed": rng.randrange(1 << 30), "evaluate": True}
+        if len(V) >= 6:
+            base["cards"] = [2]
+        for T in Ts:
+            rest = [v for v in V if v not in T]
+            subs = [sorted(c) for c in _subsets_single_district(rng, bi, T, 6)]
+            rec = [c for c in subs if len(identify_trace(di, bi, c, T)[0]) >= 1]
+            Cs = (rec[:2] + [c for c in subs if c not in rec][:1]) or subs[:1]
+            # every assignment of the outside variables to {intervened, conditioned on, absent}
+            roles = list(itt.product("wz-", repeat=len(rest)))
+            if len(roles) > 27:
+                roles = rng.sample(roles, 27)
+            for role in roles:
+                w = [v for v, r in zip(rest, role) if r == "w"]
+                Z = [v for v, r in zip(rest, role) if r == "z"]
+                extras = [v for v in w + Z if rng.random() < 0.25]
+                for pop in (None, 1005) if rng.random() < 0.3 else (None,):
+                    q = eP(sorted(T) + extras, Z, pop=pop, dos=w)
+                    kind = f"semP_w{len(w)}_z{len(Z)}_x{min(len(extras), 1)}"
+                    for Cs1 in Cs:
+                        topo = S.random_linear_extension(rng, V, di)
+                        out.append(dict(base, op="identify", C=Cs1, T=sorted(T), topo=topo, q=q, qkind=kind))
+                    if rng.random() < 0.3:
+                        topo = S.random_linear_extension(rng, V, di)
+                        out.append(dict(base, op="c_factor", district=sorted(T), H=sorted(T), topo=topo, q=q, qkind=kind))
+    return out
+
+
 def _gen_malformed(rng, n):
     out = []
     exprs = ["one", "zero", ["Q", [pv(0)], [pv(1)]], eP([0, 1]), eP([0], [1], pop=1001),
@@ -702,13 +768,15 @@ def _corpus():
 def cases(rng: random.Random, tier: str):
     out = _corpus()
     if tier == "quick":
-        out += _gen_recursion(rng, tier, [(0, 6), (1, 34), (2, 22), (3, 8)])
+        out += _gen_recursion(rng, tier, [(0, 6), (1, 34), (2, 22), (3, 14)])
         out += _gen_cfactor(rng, tier, 45)
+        out += _gen_semantic_probs(rng, tier, 40)
         out += _gen_valid(rng, tier, 110, 5)
         out += _gen_malformed(rng, 400)
     else:
         out += _gen_recursion(rng, tier, [(0, 20), (1, 120), (2, 80), (3, 30), (4, 6)])
         out += _gen_cfactor(rng, tier, 200)
+        out += _gen_semantic_probs(rng, tier, 200)
         out += _gen_valid(rng, tier, 1000, 5)
         out += _gen_valid(rng, tier, 300, 6)
         out += _gen_malformed(rng, 3000)
@@ -717,7 +785,39 @@ def cases(rng: random.Random, tier: str):
 
 # ------------------------------------------------------------------------------------------ real code
 
+class _CallTimeout(BaseException):
+    pass
+
+
+def _on_alarm(signum, frame):
+    raise _CallTimeout()
+
+
+_TIMEOUTS = {"n": 0}
+
+
 def _call(case):
+    """the real function under a CPU-time guard (ITIMER_VIRTUAL: user CPU time of this process, independent of the
+    load of the machine).  The slowest valid case of the quick stream needs 0.2 s; a run that burns 5 s (a runaway
+    recursion: every level of IDENTIFY doubles the work of sorting the nested ratios) is reported as an exception.
+    After two such runs in one process the guard drops to 0.5 s, chained generation and shrinking stop, so that a
+    systematic hang still ends in a couple of minutes with a VIOLATION (never reached on a tree without such a hang)."""
+    import signal
+
+    limit = 5.0 if _TIMEOUTS["n"] < 2 else 0.5
+    old = signal.signal(signal.SIGVTALRM, _on_alarm)
+    signal.setitimer(signal.ITIMER_VIRTUAL, limit)
+    try:
+        return _call_unguarded(case)
+    except _CallTimeout:
+        _TIMEOUTS["n"] += 1
+        return "err", f"Timeout: no result after {limit} s of CPU time"
+    finally:
+        signal.setitimer(signal.ITIMER_VIRTUAL, 0)
+        signal.signal(signal.SIGVTALRM, old)
+
+
+def _call_unguarded(case):
     """run the real function; returns ("ok", encoded expr | None) or ("err", exception class name)"""
     import networkx as nx
     from y0.algorithm import tian_id as tid
@@ -1019,6 +1119,8 @@ def _restrict_q(q, live):
 
 
 def shrink(case):
+    if _TIMEOUTS["n"] >= 3:         # the real code hangs: every candidate would cost a time-out
+        return
     for g in G.shrink_graph(case["g"]):
         live = set(G.all_nodes(g))
         c = dict(case)
